@@ -424,7 +424,8 @@ const WIRE_RULES: [&str; 9] = ["", "lowercase", "UPPERCASE", "PascalCase", "came
 const WIRE_FIELDS: [&str; 6] = ["id", "user_name", "r#type", "a1", "x_y_z", "is_ok"];
 const WIRE_VARIANTS: [&str; 4] = ["Active", "InProgress", "HttpError", "V2"];
 fn serde_name(rule: &str, pos: &str, ident: &str) -> String { serde_rename(rule, pos, ident).unwrap_or_else(|_| ident.to_string()) }
-/// kind 0: struct fields (C01), 1: struct-variant fields under a variant-level rename_all (C01), 2: unit enum (C02), 3: adjacently tagged enum (C02)
+/// kind 0: struct fields (C01), 1: struct-variant fields under a variant-level rename_all (C01), 2: unit enum (C02), 3: adjacently tagged enum (C02),
+/// 4: struct fields with the rule in a second serde attribute (C01)
 fn wire_case(kind: usize, rule: &str, lang: &str) -> Option<String> {
     let ra = if rule.is_empty() { String::new() } else { format!("#[serde(rename_all = \"{}\")]\n", rule) };
     let mut expect: Vec<(String, String)> = vec![]; // (what, key)
@@ -438,6 +439,11 @@ fn wire_case(kind: usize, rule: &str, lang: &str) -> Option<String> {
         1 => {
             for f in WIRE_FIELDS { expect.push((format!("struct-variant field {}", f), serde_name(rule, "field", f))); }
             format!("#[typeshare]\n#[serde(tag = \"kind\", content = \"payload\")]\npub enum Msg {{ {}Moved {{ {} }}, Quit }}\n", ra.replace("\n", " "), WIRE_FIELDS.iter().map(|f| format!("{}: u32, ", f)).collect::<String>())
+        }
+        4 => {
+            // the container rule sits in a second #[serde(..)] attribute, and the attributes come in another order
+            for f in WIRE_FIELDS { expect.push((format!("field {} (rename_all in a second serde attribute)", f), serde_name(rule, "field", f))); }
+            format!("#[serde(default)]\n#[typeshare]\n#[derive(Default)]\n{}pub struct Rec {{ {} }}\n", ra, WIRE_FIELDS.iter().map(|f| format!("pub {}: u32, ", f)).collect::<String>())
         }
         2 => {
             for v in WIRE_VARIANTS { expect.push((format!("variant {}", v), serde_name(rule, "variant", v))); }
@@ -454,8 +460,18 @@ fn wire_case(kind: usize, rule: &str, lang: &str) -> Option<String> {
     };
     let s2 = src.clone(); let l2 = lang.to_string();
     let out = match panic::catch_unwind(move || generate_lang(&l2, &s2)) { Ok(Ok(o)) => o, Ok(Err(e)) => return Some(format!("generation failed: {}", e)), Err(_) => return Some("generation panicked".into()) };
+    if kind == 3 && lang == "go" {
+        // Go writes the tag / content keys into three struct tags each (type, decoder, encoder): every one must be serde's key
+        let n_tag = out.matches("json:\"kind_key\"").count();
+        let n_content = out.matches("json:\"payload_key\"").count() + out.matches("json:\"payload_key,omitempty\"").count();
+        if n_tag != 3 || n_content != 2 { return Some(format!("go: the tag key is bound in {} of 3 and the content key in {} of 2 struct tags of the generated (un)marshaller", n_tag, n_content)); }
+    }
     for (what, key) in expect {
         if lang == "scala" && key.contains('-') { continue; } // Scala carries no key binding: only keys usable as identifiers are in scope
+        // Scala: the case-class parameter name IS the key (back-quoted when it is a keyword)
+        if lang == "scala" && kind <= 1 && !(out.contains(&format!("\t{}: ", key)) || out.contains(&format!("\t`{}`: ", key))) {
+            return Some(format!("scala output has no case-class parameter named `{}` for {} (the parameter name is the JSON key)", key, what));
+        }
         if !carries(&out, &key) { return Some(format!("{} output does not carry the wire name `{}` of {} (serde uses that key)", lang, key, what)); }
     }
     None
@@ -573,7 +589,7 @@ fn main() {
                 if let Some(m) = wire_case(kind, WIRE_RULES[r], WIRE_LANGS[l]) { report(kind, r, l, m); }
                 println!("input passes"); std::process::exit(0);
             }
-            let kinds: Vec<usize> = match a.get(2).map(|s| s.as_str()) { Some("C01") => vec![0, 1], Some("C02") => vec![2, 3], _ => vec![0, 1, 2, 3] };
+            let kinds: Vec<usize> = match a.get(2).map(|s| s.as_str()) { Some("C01") => vec![0, 1, 4], Some("C02") => vec![2, 3], _ => vec![0, 1, 2, 3, 4] };
             let mut tried = 0;
             for kind in kinds { for r in 0..WIRE_RULES.len() { for l in 0..WIRE_LANGS.len() {
                 tried += 1;
